@@ -1,7 +1,7 @@
 #!/bin/sh
 # tools/run_seed.sh <patch.diff> <check ids...> : apply a seeded change to /repo,
 # run the quick checks, revert. Prints one line per check.
-patch="$1"; shift
+patch="$(readlink -f "$1")"; shift
 cd /repo || exit 2
 git diff --quiet || { echo "/repo not clean"; exit 2; }
 git apply "$patch" || { echo "patch does not apply"; exit 2; }
